@@ -72,6 +72,87 @@ theorem literal_injective (v w : List Char) (h : xpathLiteral v = xpathLiteral w
   rw [h1] at h2
   exact Option.some.inj h2
 
+/-! ## the lookup itself: among elements carrying any identifiers, the one stored under `v` and only it -/
+
+theorem firstIdx_spec (w : List Char) (names : List (List Char)) (i0 : Nat) :
+    (∀ i, firstIdx w names i0 = some i →
+      i0 ≤ i ∧ names[i - i0]? = some w ∧ ∀ j, j < i - i0 → names[j]? ≠ some w) ∧
+    (firstIdx w names i0 = none → w ∉ names) := by
+  induction names generalizing i0 with
+  | nil => simp [firstIdx]
+  | cons n ns ih =>
+    unfold firstIdx
+    by_cases h : n = w
+    · subst h
+      simp only [if_true, Option.some.injEq]
+      refine ⟨?_, by simp⟩
+      intro i hi; subst hi
+      simp
+    · simp only [if_neg h]
+      obtain ⟨ih1, ih2⟩ := ih (i0 + 1)
+      refine ⟨?_, ?_⟩
+      · intro i hi
+        obtain ⟨h1, h2, h3⟩ := ih1 i hi
+        have e : i - i0 = (i - (i0 + 1)) + 1 := by omega
+        refine ⟨by omega, ?_, ?_⟩
+        · rw [e, List.getElem?_cons_succ]; exact h2
+        · intro j hj
+          cases j with
+          | zero => simpa using h
+          | succ j => rw [List.getElem?_cons_succ]; exact h3 j (by omega)
+      · intro hn
+        have := ih2 hn
+        simp only [List.mem_cons, not_or]
+        exact ⟨fun e => h e.symm, this⟩
+
+/-- **never an internal query error**, whatever the identifier and whatever the document holds -/
+theorem lookup_never_errors (names : List (List Char)) (v : List Char) : selectByName names v ≠ .error := by
+  unfold selectByName
+  rw [literal_total]
+  simp only
+  split <;> simp
+
+/-- **only it**: what a lookup returns carries exactly the identifier asked for — never an object with a different
+    identifier — and it is the first such object of the document -/
+theorem lookup_returns_only_the_named (names : List (List Char)) (v : List Char) (i : Nat)
+    (h : selectByName names v = .at i) : names[i]? = some v ∧ ∀ j, j < i → names[j]? ≠ some v := by
+  unfold selectByName at h
+  rw [literal_total] at h
+  simp only at h
+  split at h
+  · cases h
+  · rename_i k hk
+    cases h
+    have := (firstIdx_spec v names 0).1 i hk
+    simpa using this.2
+
+/-- **found again**: an object stored under `v` (at any place, among objects with any other identifiers) is found -/
+theorem lookup_finds_the_stored (names : List (List Char)) (v : List Char) (h : v ∈ names) :
+    ∃ i, selectByName names v = .at i ∧ names[i]? = some v := by
+  unfold selectByName
+  rw [literal_total]
+  simp only
+  cases hk : firstIdx v names 0 with
+  | none => exact absurd h ((firstIdx_spec v names 0).2 hk)
+  | some i =>
+    refine ⟨i, rfl, ?_⟩
+    have := (firstIdx_spec v names 0).1 i hk
+    simpa using this.2.1
+
+/-- … and a name nothing was stored under finds nothing -/
+theorem lookup_absent (names : List (List Char)) (v : List Char) (h : v ∉ names) : selectByName names v = .nothing := by
+  unfold selectByName
+  rw [literal_total]
+  simp only
+  cases hk : firstIdx v names 0 with
+  | none => rfl
+  | some i =>
+    have := ((firstIdx_spec v names 0).1 i hk).2.1
+    exact absurd (List.mem_of_getElem? this) h
+
+example : selectByName ["a\"b".toList, "a'b".toList, "a\"b'c".toList, "a\"b'c".toList] "a\"b'c".toList = .at 2 := by decide +kernel
+example : selectByName ["a\"b".toList, "x\" or \"1\"=\"1".toList] "x".toList = .nothing := by decide +kernel
+
 /-- the old way (`"` + value + `"`) is a syntax error or another string as soon as the value
     holds a double quote: the theorem above is not trivial -/
 example : evalExpr ("\"a\"b\"".toList) = none := by decide +kernel
